@@ -516,7 +516,7 @@ func (f *Forge) glListDiscussions(r *http.Request, _ []byte) (int, any, bool, ma
 	if hi > len(all) {
 		hi = len(all)
 	}
-	hdr := map[string]string{"X-Page": strconv.Itoa(page), "X-Per-Page": strconv.Itoa(per), "X-Total": strconv.Itoa(len(all))}
+	hdr := map[string]string{"X-Page": strconv.Itoa(page), "X-Per-Page": strconv.Itoa(per), "X-Total": strconv.Itoa(len(all)), "X-Total-Pages": strconv.Itoa((len(all) + per - 1) / per)}
 	if hi < len(all) {
 		hdr["X-Next-Page"] = strconv.Itoa(page + 1)
 	}
